@@ -193,11 +193,44 @@ def py_apply(s, change):
     return py_normalize(s[:a] + change["text"] + s[b:])
 
 
+# characters that text-handling code likes to treat specially but that are ordinary characters of a line for the LSP
+SPECIAL_CHARS = ["\ufeff", "\ufffe", "\u2028", "\u2029", "\u0085", "\u0000", "\u000b", "\u000c", "\u200b", "\uffff"]
+
+
+def with_special(rng, text):
+    """1/3: the text STARTS with a special character; 1/8: one somewhere else; else unchanged."""
+    r = rng.below(24)
+    if r < 8:
+        return SPECIAL_CHARS[rng.below(6 if r < 6 else len(SPECIAL_CHARS))] + text
+    if r < 11 and text:
+        k = rng.below(len(text) + 1)
+        return text[:k] + SPECIAL_CHARS[rng.below(len(SPECIAL_CHARS))] + text[k:]
+    return text
+
+
+def gen_line0_change(rng, text):
+    """A ranged change at small columns of line 0 (typing, renaming, deleting, a special character at 0:0)."""
+    e = py_len16s(text.split("\n")[0])
+    a = rng.below(min(e, 12) + 1)
+    b = a + (rng.below(4) if rng.below(2) else 0)
+    t = ["x", "ent", "", " ", "\ufeff", "\u2028"][rng.below(6)]
+    if t in ("\ufeff", "\u2028") and rng.below(2):
+        a = b = 0
+    if t == "" and a == b:
+        t = "y"
+    return {"range": {"start": {"line": 0, "character": a}, "end": {"line": 0, "character": b}}, "text": t}
+
+
 def gen_change(rng, text, base):
-    """One random content change against the client's current (normalised) text: 1/10 full text, else a
-    ranged change with positions inside, at and far beyond the line / document ends."""
+    """One random content change against the client's current (normalised) text: 1/10 full text (1/3 of them starting
+    with a special character), else a ranged change with positions inside, at and far beyond the line / document ends;
+    when line 0 starts with a non-ASCII character, 1/3 of the ranged changes are edits at small columns of line 0."""
     if rng.below(10) == 0:
-        return {"text": base if rng.below(2) else SNIPPETS[rng.below(len(SNIPPETS))] * 2}
+        return {"text": with_special(rng, base) if rng.below(2) else SNIPPETS[rng.below(len(SNIPPETS))] * 2}
+    if text[:1] and (ord(text[0]) >= 127 or ord(text[0]) < 9) and rng.below(3) == 0:
+        return gen_line0_change(rng, text)
+    if rng.below(40) == 0:
+        return gen_line0_change(rng, text)
     nl = text.count("\n") + 1
 
     def pos():
@@ -224,7 +257,8 @@ def lsp_session(binpath, wsdir, k, sd):
     with open(os.path.join(ws, "a.vhd"), "w") as f:
         f.write(BASE_TEXT)
     uri = lsp.uri(os.path.join(ws, "a.vhd"))
-    text = py_normalize(BASE_TEXT)
+    open_text = with_special(rng, BASE_TEXT)
+    text = py_normalize(open_text)
     batches = []
     for _ in range(1 + rng.below(4)):
         batch = []
@@ -233,11 +267,11 @@ def lsp_session(binpath, wsdir, k, sd):
             text = py_apply(text, ch)
             batch.append(ch)
         batches.append(batch)
-    rec = {"kind": "lsp-session", "session": k, "seed": sd, "batches": batches, "final_text": text}
+    rec = {"kind": "lsp-session", "session": k, "seed": sd, "open_text": open_text, "batches": batches, "final_text": text}
     ls = lsp.LS(binpath, ws)
     try:
         ls.initialize()
-        ls.notify("textDocument/didOpen", {"textDocument": {"uri": uri, "languageId": "vhdl", "version": 0, "text": BASE_TEXT}})
+        ls.notify("textDocument/didOpen", {"textDocument": {"uri": uri, "languageId": "vhdl", "version": 0, "text": open_text}})
         view = lsp.publish_map(ls.sync())
         ver = 0
         for batch in batches:
@@ -301,6 +335,8 @@ def py_len16s(s):
 def gen_struct_change(rng, text, n):
     """A ranged change that mostly keeps the file parseable (so that diagnostics / symbols / tokens keep
     fingerprinting the whole text): insert or delete whole lines, type behind the end of a line."""
+    if text[:1] and (ord(text[0]) >= 127 or ord(text[0]) < 9) and rng.below(3) == 0:
+        return gen_line0_change(rng, text)
     lines = text.split("\n")
     li = rng.below(len(lines))
     k = rng.below(8)
@@ -349,7 +385,7 @@ def gen_batch(rng, text, base, n):
         for _ in range(1 + rng.below(3) + (rng.below(2) if k == 1 else 0)):
             r = rng.below(12)
             if r == 0:
-                batch.append({"text": doc_text(n % 3, rng.below(4)) if rng.below(3) else base})
+                batch.append({"text": with_special(rng, doc_text(n % 3, rng.below(4)) if rng.below(3) else base)})
             elif r <= 9:
                 batch.append(gen_struct_change(rng, text, n))
             else:
@@ -370,16 +406,28 @@ def long_script(rng, ndocs, nactions, fixed=None):
     pol = [None] * ndocs
     maxv = [None] * ndocs             # highest version ever used for the URI
     lowered = [False] * ndocs         # current episode was opened below the earlier maximum
-    st = {"opens": 0, "reopens": 0, "reopens_after_close": 0, "reopens_below_max": 0, "edits_below_max_after_reopen": 0,
+    listed = ["lib%d" % i for i in range(ndocs)]   # library of every document in vhdl_ls.toml (None: in no library)
+    unsynced = [0] * ndocs            # m9-style stages: 1 = open text differs from disk and the file left all libraries,
+    #                                   2 = a further reload happened since, 3 = edited after that
+    st = {"reloads": 0, "reloads_dropping_an_open_document": 0, "reloads_in_a_row": 0, "reload_kinds": {},
+          "open_unsaved_document_dropped_then_reloaded_again_then_edited": 0, "non_project_opens": 0,
+          "texts_starting_with_special_character": 0, "opens": 0, "reopens": 0, "reopens_after_close": 0, "reopens_below_max": 0, "edits_below_max_after_reopen": 0,
           "closes": 0, "changes": 0, "notifications": 0, "full_changes": 0, "ranged_changes": 0, "multi_change": 0,
           "checks": 0, "policies": {}}
     serial = [0]
+    init_listed = [None]
+
+    def mark_init():
+        # the listing at server start is whatever it is when the first message is generated
+        if init_listed[0] is None:
+            init_listed[0] = list(listed)
 
     def use_version(i, v):
         ver[i] = v
         maxv[i] = v if maxv[i] is None else max(maxv[i], v)
 
     def do_open(i, policy=None, text=None):
+        mark_init()
         policy = policy or VERSION_POLICIES[rng.below(len(VERSION_POLICIES))]
         m = maxv[i]
         if policy == "restart1":
@@ -399,6 +447,11 @@ def long_script(rng, ndocs, nactions, fixed=None):
         if text is None:
             r = rng.below(10)
             text = doc_text(i, 0) if r <= 3 else doc_text(i, 1) if r <= 5 else saved[i] if r <= 7 else doc_text(i, 2 + rng.below(2))
+            text = with_special(rng, text)
+        if text[:1] in SPECIAL_CHARS:
+            st["texts_starting_with_special_character"] += 1
+        if listed[i] is None:
+            st["non_project_opens"] += 1
         st["opens"] += 1
         if m is not None:
             st["reopens"] += 1
@@ -434,6 +487,12 @@ def long_script(rng, ndocs, nactions, fixed=None):
             st["edits_below_max_after_reopen"] += 1
         use_version(i, v)
         texts[i] = t
+        if unsynced[i] == 2:
+            unsynced[i] = 3
+            st["open_unsaved_document_dropped_then_reloaded_again_then_edited"] += 1
+        for ch in batch:
+            if "range" not in ch and ch["text"][:1] in SPECIAL_CHARS:
+                st["texts_starting_with_special_character"] += 1
         st["changes"] += 1
         st["multi_change"] += len(batch) > 1
         for ch in batch:
@@ -446,8 +505,35 @@ def long_script(rng, ndocs, nactions, fixed=None):
         st["closes"] += 1
         script.append({"op": "close", "doc": i})
 
+    def do_reload(kind=None, new=None):
+        """Rewrite vhdl_ls.toml (documents dropped from / added to / moved between libraries, or unchanged) and
+        make the server reload it."""
+        mark_init()
+        kind = kind or ["watched", "watched", "create", "rename", "delete"][rng.below(5)]
+        if new is None:
+            new = list(listed)
+            for i in range(ndocs):
+                r = rng.below(10)
+                if r < 4:
+                    new[i] = None if new[i] is not None else "lib%d" % i
+                elif r == 4 and new[i] is not None:
+                    new[i] = "alt%d" % i if new[i].startswith("lib") else "lib%d" % i
+        st["reloads"] += 1
+        st["reload_kinds"][kind] = st["reload_kinds"].get(kind, 0) + 1
+        if script and script[-1]["op"] == "reload":
+            st["reloads_in_a_row"] += 1
+        for i in range(ndocs):
+            if unsynced[i] == 1:
+                unsynced[i] = 2
+            if texts[i] is not None and listed[i] is not None and new[i] is None:
+                st["reloads_dropping_an_open_document"] += 1
+            if texts[i] is not None and new[i] is None and unsynced[i] == 0 and texts[i] != py_normalize(doc_text(i)):
+                unsynced[i] = 1
+            listed[i] = new[i]
+        script.append({"op": "reload", "kind": kind, "listed": list(listed)})
+
     def do_check():
-        if script and script[-1]["op"] != "check" and any(t is not None for t in texts):
+        if script and script[-1]["op"] != "check" and any(texts[i] is not None and listed[i] is not None for i in range(ndocs)):
             st["checks"] += 1
             script.append({"op": "check"})
 
@@ -479,8 +565,51 @@ def long_script(rng, ndocs, nactions, fixed=None):
         do_close(1)
         do_open(1, "decreasing", doc_text(1))
         do_change(1, [ins(4, "  signal d : bit;\n")])
+    elif fixed == 2:
+        # unsaved text, the file leaves vhdl_ls.toml, comes back with the next reload
+        do_open(0, "restart1", doc_text(0))
+        do_open(1, "restart1", doc_text(1))
+        for j in range(3):
+            do_change(0, [ins(4, "  signal a%d : bit;\n" % j)])
+        do_reload("watched", [None, "lib1"])
+        do_change(0, [ins(4, "  signal unlisted : bit;\n")])
+        do_reload("watched", ["lib0", "lib1"])
+        do_change(0, [ins(6, "  signal back : bit;\n")])
+        do_check()
+        do_reload("watched", [None, "lib1"])
+        do_reload("create", [None, "lib1"])
+        do_change(0, [ins(0, "-- c\n")])
+        do_change(1, [ins(4, "  signal other : bit;\n")])
+        do_reload("rename", ["alt0", "lib1"])
+        do_change(0, [ins(1, "-- d\n")])
+    elif fixed == 3:
+        # a non-project file is opened and edited, two reloads in a row, then it becomes a project file
+        listed[1] = None
+        do_open(1, "restart1", doc_text(1))
+        do_open(0, "restart1", "\ufeff" + doc_text(0))
+        do_change(0, [{"range": {"start": {"line": 0, "character": 8}, "end": {"line": 0, "character": 10}}, "text": "e0"}])
+        for j in range(3):
+            do_change(1, [ins(4, "  signal n%d : bit;\n" % j)])
+        do_reload("delete", ["lib0", None])
+        do_reload("watched", ["lib0", "lib1"])
+        do_change(1, [ins(4, "  signal listed : bit;\n")])
+        do_check()
+        do_reload("watched", ["lib0", None])
+        do_reload("create", ["lib0", None])
+        do_change(1, [ins(4, "  signal ignored : bit;\n")])
+        do_change(0, [{"text": "\ufeff" + doc_text(0, 1)}])
+        do_change(0, [{"range": {"start": {"line": 0, "character": 1}, "end": {"line": 0, "character": 4}}, "text": "--x"}])
+        do_reload("watched", ["lib0", "lib1"])
     else:
+        for i in range(ndocs):
+            if rng.below(4) == 0:
+                listed[i] = None
         for _ in range(nactions):
+            if rng.below(10) == 0:
+                do_reload()
+                if rng.below(3) == 0:
+                    do_reload()
+                continue
             i = rng.below(ndocs)
             if texts[i] is None:
                 do_open(i)
@@ -499,9 +628,16 @@ def long_script(rng, ndocs, nactions, fixed=None):
         if all(t is None for t in texts):
             do_open(0)
             do_change(0)
+    if any(texts[i] is not None and listed[i] is None for i in range(ndocs)):
+        # every open document back into a library: only then a client can observe what the server holds
+        do_reload(None, [listed[i] or "lib%d" % i for i in range(ndocs)])
+        for i in range(ndocs):
+            if texts[i] is not None and unsynced[i] and rng.below(2):
+                do_change(i)
     do_check()
     st["notifications"] = sum(1 for x in script if x["op"] != "check")
-    return script, st
+    mark_init()
+    return [{"op": "init", "listed": init_listed[0]}] + script, st
 
 
 def canon_json(x):
@@ -530,8 +666,15 @@ def play_long(binpath, ws, ndocs, script):
     Returns (verdict or None, details)."""
     from vlib import lsp
     os.makedirs(ws, exist_ok=True)
-    with open(os.path.join(ws, "vhdl_ls.toml"), "w") as f:
-        f.write("[libraries]\n" + "".join("lib%d.files = ['d%d.vhd']\n" % (i, i) for i in range(ndocs)))
+    toml = os.path.join(ws, "vhdl_ls.toml")
+
+    def write_toml(listing):
+        with open(toml, "w") as f:
+            f.write("[libraries]\n" + "".join("%s.files = ['d%d.vhd']\n" % (listing[i], i) for i in range(ndocs) if listing[i]))
+    listed = ["lib%d" % i for i in range(ndocs)]
+    if script and script[0]["op"] == "init":
+        listed = list(script[0]["listed"])
+    write_toml(listed)
     for i in range(ndocs):
         with open(os.path.join(ws, "d%d.vhd" % i), "w") as f:
             f.write(doc_text(i))
@@ -557,9 +700,27 @@ def play_long(binpath, ws, ndocs, script):
             elif step["op"] == "close":
                 texts[step["doc"]] = None
                 ls.notify("textDocument/didClose", {"textDocument": {"uri": uris[step["doc"]]}})
+            elif step["op"] == "init":
+                pass
+            elif step["op"] == "reload":
+                # the server reads vhdl_ls.toml when it handles the notification: everything sent so far first
+                lsp.publish_map(ls.sync(), view)
+                listed = list(step["listed"])
+                write_toml(listed)
+                other = lsp.uri(os.path.join(ws, "other.vhd"))
+                if step["kind"] == "watched":
+                    ls.notify("workspace/didChangeWatchedFiles", {"changes": [{"uri": lsp.uri(toml), "type": 2}]})
+                elif step["kind"] == "create":
+                    ls.notify("workspace/didCreateFiles", {"files": [{"uri": other}]})
+                elif step["kind"] == "rename":
+                    ls.notify("workspace/didRenameFiles", {"files": [{"oldUri": other, "newUri": other + "l"}]})
+                else:
+                    ls.notify("workspace/didDeleteFiles", {"files": [{"uri": other}]})
+                lsp.publish_map(ls.sync(), view)
             else:
                 lsp.publish_map(ls.sync(), view)
-                open_docs = [i for i in range(ndocs) if texts[i] is not None]
+                # a document that is in no library at the moment has no observable diagnostics / symbols
+                open_docs = [i for i in range(ndocs) if texts[i] is not None and listed[i]]
                 try:
                     inc = observe_docs(ls, view, uris, open_docs)
                 except lsp.ServerDied as ex:
@@ -585,12 +746,12 @@ def play_long(binpath, ws, ndocs, script):
                     if a != b:
                         what = [k for k in ("diagnostics", "symbols", "tokens", "errors") if a[k] != b[k]]
                         ls.shutdown()
-                        return ("long-lived server: after open/edit/close/re-open histories the server's view (%s) of document d%d "
+                        return ("long-lived server: after open/edit/close/re-open/config-reload histories the server's view (%s) of document d%d "
                                 "differs from a fresh server that opened the client's text (plain-string splice of every "
                                 "change in listed order)" % (", ".join(what), i),
                                 {"messages": script[:n + 1], "document": i, "client_text": texts[i],
                                  "long_lived": a, "fresh": b})
-            if step["op"] != "check" and n % 4 == 3:
+            if step["op"] in ("open", "change", "close") and n % 4 == 3:
                 lsp.publish_map(ls.sync(), view)
         ls.shutdown()
     except lsp.ServerDied as ex:
@@ -599,7 +760,7 @@ def play_long(binpath, ws, ndocs, script):
     return None, {"checks": nchecks}
 
 
-N_FIXED_LONG = 2
+N_FIXED_LONG = 4
 
 
 def lsp_long_session(binpath, wsdir, k, sd, script=None, ndocs=None):
@@ -651,7 +812,7 @@ def lsp_stage(res, n, only=None, nlong=0, replay_long=None):
     for rec, verdict in short:
         nontriv = any("range" in c and (c["range"]["end"]["line"] > 8 or c["range"]["end"]["character"] > 11 or "\n" in c["text"])
                       for b in rec["batches"] for c in b)
-        res.count_case("lsp:" + json.dumps(rec["batches"], sort_keys=True), nontriv)
+        res.count_case("lsp:" + json.dumps([rec.get("open_text"), rec["batches"]], sort_keys=True), nontriv)
         if rec.get("incremental"):
             nd += 1
         if verdict:
@@ -734,9 +895,13 @@ def main(tier, replay=None):
         # histories through an EMPTY document (new file / select-all-delete / full text ""), then a ranged insert of
         # non-ASCII text (2-, 3- and 4-byte characters) and ranged edits behind those characters on their lines
         sampled += stream("emptystart", "emptystart", 200000 if tier == "thorough" else 8000, 100)
+        # "special" characters (U+FEFF, U+FFFE, U+2028, U+2029, NEL, NUL, VT, FF, ...) as FIRST character and elsewhere of
+        # initial texts (Contents::from_str) and full-text replacements, then ranged edits on the affected line
+        sampled += stream("exhaustive-special", "exhaustive-special", 0, 2000)
+        sampled += stream("special", "special", 200000 if tier == "thorough" else 8000, 100)
     coq_cross_check(res, sampled[:400])
     if not replay:
-        lsp_stage(res, 400 if tier == "thorough" else 48, nlong=100 if tier == "thorough" else 12)
+        lsp_stage(res, 400 if tier == "thorough" else 48, nlong=100 if tier == "thorough" else 14)
     res.coverage["exhaustive"] = False
     res.coverage["rule"] = ("corpus of minimised failures first; exhaustive single ranged changes over documents <= 3 chars "
                             "(thorough: 4) of {a, LF, CR, U+1F600}, replacements <= 2 (3) chars, all ordered position pairs "
@@ -744,15 +909,25 @@ def main(tier, replay=None):
                             "positions inside, at and beyond line/document ends (incl. 2^32-1) and 1/16 inverted ranges; "
                             "histories through an EMPTY document (new file, select-all-delete, full text \"\") followed by a ranged "
                             "insert of text with 2-, 3- and 4-byte characters and 1-5 ranged edits at UTF-16 columns behind those "
-                            "characters on their lines. LSP: 48 one-document sessions (batched didChange, fresh server per session) and "
-                            "long-lived-server sessions (2 scripted + random: 1-3 documents interleaved, open / edits / close / RE-OPEN of "
+                            "characters on their lines; 'special' characters (U+FEFF, U+FFFE, U+2028, U+2029, NEL, NUL, VT, FF, NBSP, ZWSP, "
+                            "U+FFFD, U+FFFF, U+D7FF, U+E000, U+10000, U+10FFFF) as FIRST character and elsewhere of initial texts "
+                            "(Contents::from_str) and full-text replacements followed by ranged edits on the affected line: exhaustive "
+                            "for documents <= 3 chars over {a, LF, U+FEFF, U+2028} reaching the buffer as initial text and as full-text "
+                            "change (6.6e4 cases) + random histories; the random and empty-start alphabets include them too. "
+                            "LSP: 48 one-document sessions (batched didChange, fresh server per session; 1/3 of the opened and "
+                            "full-text texts start with a special character, then edits at small columns of line 0) and "
+                            "long-lived-server sessions (4 scripted + random: 1-3 documents interleaved, open / edits / close / RE-OPEN of "
                             "the same URI with version numbering restarting at 1 or 0, constant, equal to, below, decreasing from the "
                             "earlier maximum, with gaps or continuing; full-text and ranged changes mixed, multi-change notifications "
-                            "listed bottom-up and top-down) compared at checkpoints (diagnostics + documentSymbol + semanticTokens/full "
+                            "listed bottom-up and top-down; CONFIG RELOADS interleaved with the edits: vhdl_ls.toml rewritten so that "
+                            "documents with unsaved text leave all libraries / come back / move to another library / stay, non-project "
+                            "files opened and edited before they are listed, two and more reloads in a row, reload through "
+                            "didChangeWatchedFiles on the toml and through didCreateFiles / didRenameFiles / didDeleteFiles; a document "
+                            "in no library is compared once it is listed again) compared at checkpoints (diagnostics + documentSymbol + semanticTokens/full "
                             "of every open document) with a fresh server that opened the client's own texts. "
                             "non-trivial = a ranged edit with a multi-line replacement, an out-of-range position or a "
                             "supplementary-plane character; for a long-lived-server session: a URI re-opened below its earlier "
-                            "maximum version and edited afterwards; distinct by hash of the case line / message script")
+                            "maximum version and edited afterwards (config-reload coverage is counted in lsp_long_sessions_stats); distinct by hash of the case line / message script")
     res.coverage["trusted_base"] = TRUSTED_BASE_COMMON + [
         "characters (Unicode scalars) instead of UTF-8 bytes in the model: bytes 10 and 13 never occur inside a multi-byte sequence",
         "model line numbers are nat: the extracted-model comparison uses lines < 5000; larger values are covered by the plain-string oracle only",
